@@ -93,8 +93,18 @@ CHECKS["C05"] = dict(
          "Cc.setnx_one_winner state the property's examples for every n. The discipline hypothesis is tied to the code by hook H2: on every command of "
          "the generated exec programs the recorded lock/access event trace must be accepted by TraceCheck.ok (TraceCheck.access_held: every access "
          "inside its stripe in a sufficient mode). Concurrent histories (2-16 goroutines, colliding stripes) are additionally checked with porcupine, "
-         "a lockset monitor, quiescent invariants and the Go race detector.",
-    note="Partial: the Go scheduler and memory model are not modelled; concurrent runs are exploration. Trusted: Lean kernel, harness, hook H2, sync.RWMutex semantics.",
+         "a lockset monitor, quiescent invariants and the Go race detector. "
+         "For the REAL command table (Exec.exec, 77 commands): Exec.footprint args = the keys whose stripes the executor locks and the mode (a function "
+         "of the argument vector; Exec.lockPlan additionally knows the refusals issued before the first lock); Props/C05Foot*.lean prove exec_frame "
+         "(a key outside the footprint is untouched), exec_local (reply and new entries under the footprint keys depend only on the entries under them) "
+         "and exec_readonly (a read footprint only lazily deletes expired entries; nothing on the live view) for every command; Props/C05Atomic.lean "
+         "instantiates Cc.atomicity (now generic in key and value type) with the block of every command (cmdBlock_wf, cmdBlock_adequate) and proves "
+         "table_atomicity_partial: any number of clients running any lists of commands other than KEYS end, under every interleaving, with the keyspace "
+         "and replies of the sequential run in commit order. Tie: on every traced command the set of stripes locked (and the write mode) must equal the "
+         "stripes of Exec.lockPlan's keys (Driver.checkFootprint; the harness ships the stripe of every argument), with its own negative control.",
+    note="Partial: the Go scheduler and memory model are not modelled; concurrent runs are exploration. The table-wide atomicity theorem models one block per "
+         "command (CheckTTL's own blocks folded in, KEYS excluded, DEL/EXISTS/MGET/BLPOP/BRPOP as one block although Go takes one per key). "
+         "Trusted: Lean kernel, harness, hook H2, sync.RWMutex semantics.",
 )
 CHECKS["C13"] = dict(
     category="proof", design_ref="DESIGN.md §6 C13", engine="exec+conc",
@@ -103,8 +113,11 @@ CHECKS["C13"] = dict(
          "stripe function, so for every key overlap and collision pattern; SetOps.lockPoses_spec: the sort/dedupe of LockMulti produces exactly such a "
          "sequence. The hypothesis is tied to the code by hook H2 (TraceCheck.ok: ascending, two-phase, balanced) on every multi-key command of generated "
          "programs under ShardNum 2/4/1024. Concurrent mixes of MSET/RENAME/LMOVE/SMOVE/DEL/EXISTS/MGET with single-key traffic run under a 20 s watchdog "
-         "with atomicity invariants at quiescence and under -race.",
-    note="Partial: scheduler/runtime not modelled; the concurrent runs are exploration. Trusted: Lean kernel, harness, hook H2.",
+         "with atomicity invariants at quiescence and under -race. Exec.table_atomicity_partial (Props/C05Atomic.lean): every multi-key command of the real "
+         "table, as ONE two-phase block over exactly the keys of Exec.footprint, is atomic under every interleaving; that the Go executors lock exactly "
+         "those stripes, in write mode where the footprint says so, is checked on every traced command (Driver.checkFootprint against Exec.lockPlan).",
+    note="Partial: scheduler/runtime not modelled; the concurrent runs are exploration; DEL/EXISTS/MGET are one block per key in Go (not atomic across keys). "
+         "Trusted: Lean kernel, harness, hook H2.",
 )
 
 CHECKS["C06"] = dict(
